@@ -11,6 +11,7 @@ mod scan;
 mod fdl;
 mod gsd;
 mod dp;
+mod bus;
 mod util;
 
 use std::io::{BufRead, Write};
@@ -29,6 +30,7 @@ const DOMAINS: &[(&str, GenFn, RunFn)] = &[
     ("fdl", fdl::gen, fdl::run_case),
     ("gsd", gsd::gen, gsd::run_case),
     ("dp", dp::gen, dp::run_case),
+    ("bus", bus::gen, bus::run_case),
 ];
 
 fn main() {
